@@ -357,6 +357,8 @@ def differing_functions(d, a, b, names):
         m = re.search(r"\b(?:A\d+::)?([fsgKO]\d+)\b", la[i])
         if m and ("Python function wrapper" in la[max(0, i - 1)] or la[i].startswith((" * ", "static", "PyObject"))):
             cur = m.group(1)
+        if "Extern declarations for imported classes" in la[i] or la[i].startswith("static Dtool_TypeDef imports"):
+            cur = None            # (tables after the wrappers belong to no function)
         if la[i] != lb[i] and cur and cur not in hit:
             hit.append(cur)
             if len(hit) >= 5:
